@@ -16,7 +16,7 @@ def showState (s : S) : S × String :=
   let newCalls := s.r.log.drop s.printed
   let cs := (newCalls.map showCall).toArray.qsort (· < ·)
   let objs := (s.r.objs.toArray.qsort (fun a b => a.id < b.id)).toList.map fun o => s!"{o.id}:{o.data}:{o.other}:{o.kind.str}"
-  let str := s!"calls=[{" ".intercalate cs.toList}] objs=[{" ".intercalate objs}] lw={if s.r.progressLW = 0 then "0" else "+"}"
+  let str := s!"calls=[{" ".intercalate cs.toList}] objs=[{" ".intercalate objs}] lw={if s.r.progressLW = 0 then "0" else "+"}{if s.r.tieSeen then " #tie" else ""}"
   ({ s with printed := s.r.log.length }, str)
 
 def after (s : S) (r : R) : S × String :=
